@@ -545,6 +545,11 @@ ObjQueries(o) ==
   IF o.kind = "kv" THEN [view |-> KvView(o.U),
                          q |-> LET S == SeqOfSet(ParamGridQ(o.U)) IN [i \in 1..Len(S) |-> QueryRow(o.U, S[i])]]
   ELSE [view |-> <<>>, q |-> <<>>]
-Log == PrintT(ToJson([d |-> depth', pre |-> heap, act |-> act', ret |-> ret', post |-> heap', mpre |-> memo, mpost |-> memo',
-                      obs |-> [o \in DOMAIN heap' |-> ObjQueries(heap'[o])]]))
+(* ovf: module Rat raised its overflow flag on this worker since the previous logged transition, i.e. some   *)
+(* arithmetic behind this transition (or behind a discarded candidate before it) left TLC's 32 bits: the       *)
+(* harness skips the transition (counted), because even a boolean expectation may rest on a NaR.               *)
+Log == LET o == OvfSeen(depth) IN
+       /\ PrintT(ToJson([d |-> depth', pre |-> heap, act |-> act', ret |-> ret', post |-> heap', mpre |-> memo, mpost |-> memo',
+                         obs |-> [ob \in DOMAIN heap' |-> ObjQueries(heap'[ob])], ovf |-> o]))
+       /\ OvfReset(depth)
 =============================================================================
